@@ -146,5 +146,5 @@ def events_line(line: str):
     if text.startswith("section "):
         return ("accept", "section", int(tick), text[8:])
     if "\"" in text:
-        return REJECT
+        return DONTCARE  # the statement fixes only quote-free plain texts; what happens to other texts with inner quotes is open
     return ("accept", "text", int(tick), text)
